@@ -1277,7 +1277,14 @@ pub fn gen_case(family: &str, seed: u64, idx: usize) -> Case {
                 items.push(item(&format!("p{i}"), e));
             }
             rng.shuffle(&mut items);
-            if !gone {
+            if idx % 5 == 2 {
+                // the server turns bad at the k-th query of the run: everything from then on is answered
+                // with a line that is no IRRd response (model-free verdict, see main)
+                let f = vec![Fault { sel: FSel::Idx(rng.below(6)), kind: 'X' }];
+                for it in items.iter_mut() {
+                    it.faults = f.clone();
+                }
+            } else if !gone {
                 let kind = *rng.pick(&['D', 'E', 'F']);
                 let f = vec![Fault {
                     sel: FSel::Query(format!("a{shared}")),
@@ -2416,11 +2423,14 @@ pub fn main(opts: &Opts) {
                 } else {
                     obs.run.clone()
                 };
-                sink.corr(
-                    &d,
-                    format!("irr evalall {cfg} {db} {FUEL} {} {pt}", case.cands_tok()),
-                    canon,
-                );
+                let turns_bad = case.items.iter().any(|i| i.faults.iter().any(|f| f.kind == 'X'));
+                if !turns_bad {
+                    sink.corr(
+                        &d,
+                        format!("irr evalall {cfg} {db} {FUEL} {} {pt}", case.cands_tok()),
+                        canon,
+                    );
+                }
                 sink.count(&format!(
                     "run.{}",
                     obs.run.split([' ', '=']).next().unwrap_or("")
@@ -2452,6 +2462,31 @@ pub fn main(opts: &Opts) {
                                 ),
                             );
                         }
+                    }
+                    "c03" if turns_bad => {
+                        // no model for a server that stops speaking the protocol: the verdict is C03 itself —
+                        // every candidate is reported (none silently dropped), and whatever could not be
+                        // evaluated is not touched by any load
+                        let _ = c03_model.next();
+                        sink.count("c03.server-turns-bad");
+                        let verdict = match (&obs.touched, obs.run.strip_prefix("done ")) {
+                            (_, None) => format!("violation agent-evaluate-{}", obs.run.split([' ', '=']).next().unwrap_or("")),
+                            (None, _) => "violation harness-no-plan".to_string(),
+                            (Some(Err(e)), _) => format!("violation plan-failed-{}", hexs(e)),
+                            (Some(Ok(t)), Some(rest)) => {
+                                let outs: HashMap<&str, &str> = rest.split(',').filter_map(|x| x.split_once('=')).collect();
+                                let missing = case.items.iter().any(|i| !outs.contains_key(i.name.as_str()));
+                                let hit = case.items.iter().any(|i| outs.get(i.name.as_str()) == Some(&"none") && t.contains(&i.name));
+                                if missing {
+                                    "violation candidate-dropped-from-evaluation".to_string()
+                                } else if hit {
+                                    "violation failed-evaluation-causes-update".to_string()
+                                } else {
+                                    "ok".to_string()
+                                }
+                            }
+                        };
+                        sink.direct(&d, verdict);
                     }
                     "c03" => {
                         sink.spec(
